@@ -9,7 +9,9 @@
    checks that the number of distinct states equals the number of cases.
 
    kinds
-     "prog"   C18: a program of calls on one field of one line at one level; each
+     "prog"   C18: a program of calls on one field of one line at one level (a stand-alone
+              line, a line a Gfa built from text, or a line DERIVED by a library operation
+              from lines of that level: c.origin); each
               event carries the observed result class, the "# INVALID" mark of
               str(line) and whether the stored object is still the previous one
               (kept: "T" / "F" / "?" when the very same object was assigned again).
@@ -17,12 +19,17 @@
               through Fields!Step; the first call no allowed outcome matches names
               the clause.
      "lvl"    C18: one document built at levels 0..3: acceptance, written lines
-              (bag; tags as sets), digest of the object graph.
-     "clone"  C19: a line and its clone: text, ==, is_connected(), gfa.
+              (bag; tags as sets), digest of the object graph; optionally a library
+              operation after the load (op: its result class).
+     "clone"  C19: a line and its clone: text, == (both directions), is_connected(), gfa;
+              then a program of read-only calls on one copy or the other (c.steps, from
+              MC_Fields mode renum) with == after every call.
      "edit"   C19: one in-place edit of one copy: text of the other copy and of the
               Gfa before / after.
      "val"    C20: one Python value assigned to a new tag or to a tag of a declared
               datatype: datatype, written characters, validation, read back.
+     "gval"   C20: a "val" case on a tag of a line that belongs to a Gfa, with what every
+              write path of the Gfa wrote (c.outs).
      "hist"   C20: one custom tag through a sequence of set / delete / set(None) /
               set_datatype calls; a "val"-like record after every call.
      "table"  one string representative of the C18 value-class table, judged
@@ -76,7 +83,11 @@ ProgRun(c, j, A) ==
             IF B # {} THEN ProgRun(c, j + 1, B)
             ELSE {ProgClause(CHOOSE s \in A : TRUE, op)}
 ProgVerdict(c) == ProgRun(c, 1, {ProgInit(c)})
-                  \cup (IF LevelPropagated(c.lvl, c.linelvl) THEN {} ELSE {"C18.level-not-propagated"})
+                  \* c.origin: "text" (built from text by the Gfa / stand-alone) or the Fields!DeriveKinds
+                  \* operation that made the line from lines of a Gfa (of a line) of level c.lvl
+                  \cup (IF (IF c.origin = "text" THEN LevelPropagated(c.lvl, c.linelvl)
+                           ELSE DerivedLevelPropagated(c.lvl, c.origin, c.linelvl))
+                        THEN {} ELSE {"C18.level-not-propagated"})
 \* index of the first call that is rejected (0: none), for the report
 RECURSIVE ProgAt(_, _, _)
 ProgAt(c, j, A) ==
@@ -101,16 +112,50 @@ LvlVerdict(c) ==
   \cup (IF r[4].res = "ok" /\ \E k \in 1..3 : r[k].res = "ok" /\
               (TextBag(r[k]) # TextBag(r[4]) \/ r[k].dig # r[4].dig)
         THEN {"C18.level-dependence"} ELSE {})
+  \* a library operation applied after the load (r[k].op: "-" none / its result class; lines and
+  \* dig are then those after the operation, empty when it failed): on valid input its outcome
+  \* does not depend on the level either (Fields.tla PART 5 a')
+  \cup (IF \E k \in 1..4 : r[k].op = "FOREIGN" THEN {"foreign"} ELSE {})
+  \cup (IF r[4].res = "ok" /\ \E k \in 1..3 : r[k].res = "ok" /\ r[k].op # r[4].op
+        THEN {"C18.level-dependence"} ELSE {})
 
 -----------------------------------------------------------------------------
 (* kind "clone": Fields!Step says what a clone is: detached, fields equal *)
+\* c.steps: read-only calls (Fields!ReadOps; on every field of the copy st.t) after the cloning;
+\* after each the harness records the result class, == in both directions, and whether the two
+\* written forms are the same (and the original's the one it had).  Step says what a read does to
+\* valid fields (nothing); as long as Fields!CopiesEqual holds, == must hold.
+RECURSIVE CloneRun(_, _, _)
+CloneRun(c, j, s) ==
+  IF j > Len(c.steps) THEN {}
+  ELSE LET st == c.steps[j]
+           op == Op(st.k, "line", "-", st.t)
+           M == {o \in Step(s, op) : o.res = st.res} IN
+       IF "FOREIGN" \in {st.res, st.eq, st.eqr} THEN {"foreign"}
+       ELSE IF M = {} THEN {"C19.read-rejected"}
+       ELSE LET s2 == (CHOOSE o \in M : TRUE).st IN
+            (IF CopiesEqual(s2) /\ (st.eq # "T" \/ st.eqr # "T") THEN {"C19.not-equal"} ELSE {})
+            \cup (IF CopiesEqual(s2) /\ st.same # "T" THEN {"C19.text-differs"} ELSE {})
+            \cup CloneRun(c, j + 1, s2)
+RECURSIVE CloneAt(_, _, _)
+CloneAt(c, j, s) ==
+  IF j > Len(c.steps) THEN 0
+  ELSE LET st == c.steps[j]
+           op == Op(st.k, "line", "-", st.t)
+           M == {o \in Step(s, op) : o.res = st.res} IN
+       IF M = {} \/ "FOREIGN" \in {st.res, st.eq, st.eqr} \/ st.eq # "T" \/ st.eqr # "T" \/ st.same # "T" THEN j
+       ELSE CloneAt(c, j + 1, (CHOOSE o \in M : TRUE).st)
+CloneState(c) ==
+  (CHOOSE o \in Step(Init0(c.lvl, c.conn, [n \in {"line"} |-> Field("text", "valid", 1)]),
+                     Op("clone", "line", "-", "orig")) : TRUE).st
+
 CloneVerdict(c) ==
-  LET s0 == Init0(1, c.conn, [n \in {"line"} |-> Field("text", "valid", 1)])
+  LET s0 == Init0(c.lvl, c.conn, [n \in {"line"} |-> Field("text", "valid", 1)])
       o == CHOOSE o \in Step(s0, Op("clone", "line", "-", "orig")) : TRUE
       \* the clone writes what the original writes, and is detached
       sameText == Written(o.st.c) = Written(o.st.o)
       detached == ~o.st.c.conn IN
-  (IF "FOREIGN" \in {c.cl, c.o.res, c.c.res, c.eq, c.isconn, c.gfa} THEN {"foreign"} ELSE {})
+  (IF "FOREIGN" \in {c.cl, c.o.res, c.c.res, c.eq, c.eqr, c.isconn, c.gfa} THEN {"foreign"} ELSE {})
   \cup (IF c.cl = "Error" THEN {"C19.not-equal"} ELSE {})
   \cup (IF c.cl = "ok" /\ sameText /\ c.o.res = "ok" /\
            (c.c.res # "ok" \/ c.c.pos # c.o.pos \/ Rng(c.c.tags) # Rng(c.o.tags))
@@ -118,6 +163,9 @@ CloneVerdict(c) ==
   \cup (IF c.cl = "ok" /\ c.eq \in {"F", "Error"} THEN {"C19.not-equal"} ELSE {})
   \cup (IF c.cl = "ok" /\ detached /\ (c.isconn \in {"T", "Error"} \/ c.gfa \in {"some", "Error"})
         THEN {"C19.not-detached"} ELSE {})
+  \* the other direction of ==, and equality after reads of either copy (c.steps)
+  \cup (IF c.cl = "ok" /\ c.eqr \in {"F", "Error"} THEN {"C19.not-equal"} ELSE {})
+  \cup (IF c.cl = "ok" THEN CloneRun(c, 1, o.st) ELSE {})
 
 -----------------------------------------------------------------------------
 (* kind "edit": clone, then one edit of copy c.target; the frame condition of
@@ -188,6 +236,37 @@ ValVerdict(c) ==
        IF a = {} \/ b = {} THEN {} ELSE a \cup b
 
 -----------------------------------------------------------------------------
+(* kind "gval": a "val" case whose tag lives on a line that BELONGS TO A Gfa -- the
+   header (one value, or the same tag added c.nadd = 2 times), a segment, a link --
+   and is written through every path that writes it (Fields!WritePaths): the base
+   record is what field_to_s / str of the line itself gave, c.outs the DISTINCT
+   observations [w, wchars, s, mark, rb, n] of the other paths (n: how often the tag
+   occurs in what that path wrote).  Fields!WrittenAlike: the law of C20 does not
+   depend on the path, so every observation is judged by ValVerdict.            *)
+GvalOut(c, o) == [c EXCEPT !.w = o.w, !.wchars = o.wchars, !.s = o.s, !.mark = o.mark, !.rb = o.rb]
+GvalOutVerdict(c, o) ==
+  LET dts == ValDTs(c)
+      d == IF c.dt \in dts THEN c.dt ELSE CHOOSE x \in dts : TRUE IN
+  ValVerdict(GvalOut(c, o))
+  \* every stored value is written exactly once by a path that writes the line
+  \cup (IF c.set = "ok" /\ o.s = "ok" /\ ~o.mark /\ (\A x \in dts : InScope(x, c.v))
+           /\ RepStatus(d, c.v) = "yes" /\ ~OccurrencesOK(c.nadd, o.n)
+        THEN {"C20.readback"} ELSE {})
+GvalBase(c) ==
+  LET dts == ValDTs(c)
+      d == IF c.dt \in dts THEN c.dt ELSE CHOOSE x \in dts : TRUE IN
+  ValVerdict(c)
+  \cup (IF c.add2 = "FOREIGN" THEN {"foreign"} ELSE {})
+  \* adding a second representable value of the same datatype to a header tag is not refused
+  \cup (IF c.add2 = "Error" /\ (\A x \in dts : InScope(x, c.v)) /\ RepStatus(d, c.v) = "yes"
+        THEN {"C20.readback"} ELSE {})
+GvalVerdict(c) == GvalBase(c) \cup UNION {GvalOutVerdict(c, c.outs[i]) : i \in DOMAIN c.outs}
+\* 0: the line's own field_to_s / str; k: observation k of c.outs
+GvalAt(c) == IF GvalBase(c) # {} \/ \A i \in DOMAIN c.outs : GvalOutVerdict(c, c.outs[i]) = {} THEN 0
+             ELSE CHOOSE i \in DOMAIN c.outs : GvalOutVerdict(c, c.outs[i]) # {}
+                                               /\ \A j \in 1..(i - 1) : GvalOutVerdict(c, c.outs[j]) = {}
+
+-----------------------------------------------------------------------------
 (* kind "hist": one custom tag of one line through set / delete / set(None) /
    set_datatype; after every call the harness records what a "val" case records.
    Fields!HStep gives the tag's state; the per-step verdict is ValVerdictAs with
@@ -253,10 +332,13 @@ Verdict(c) ==
     [] Kind = "clone" -> CloneVerdict(c)
     [] Kind = "edit" -> EditVerdict(c)
     [] Kind = "val" -> ValVerdict(c)
+    [] Kind = "gval" -> GvalVerdict(c)
     [] Kind = "table" -> TableVerdict(c)
     [] Kind = "hist" -> HistVerdict(c)
 Where(c) == IF Kind = "prog" THEN ProgAt(c, 1, {ProgInit(c)})
             ELSE IF Kind = "hist" THEN HistAt(c, 1, HState(c.init.present, c.init.dt, c.init.v))
+            ELSE IF Kind = "gval" THEN GvalAt(c)
+            ELSE IF Kind = "clone" /\ c.cl = "ok" THEN CloneAt(c, 1, CloneState(c))
             ELSE 0
 
 Init == cid \in 1..Len(Cases)
